@@ -210,7 +210,9 @@ Definition check_unnamed_fields (fields : list field) (ta : trait_attr) (k : kin
          ", that corresponds to #[" ^^ fallible_kind_str k kind_fallible ^^ "(" ^^ tp_str ty ^^ "...)] trait instruction"]
     end) fields.
 
-Definition validate_fields (s : struct_) (by_kind : list (trait_attr * kind)) (type_paths : list type_path) : list string :=
+(* order_tp: the iteration order of the two HashSet<&TypePath> that validate_fields walks (C19) *)
+Definition validate_fields (order_tp : list type_path -> list type_path)
+  (s : struct_) (by_kind : list (trait_attr * kind)) (type_paths : list type_path) : list string :=
   let d := s_attrs s in
   let into_type_paths := flat_map (fun ak => if negb (is_from (snd ak)) && negb (is_into_existing (snd ak))
                                              then [tc_ty (ta_core (fst ak))] else []) by_kind in
@@ -226,7 +228,7 @@ Definition validate_fields (s : struct_) (by_kind : list (trait_attr * kind)) (t
                 "' should provide default value for type " ^^ tp_str tp] else []
       | None =>
           map (fun tp => "Member instruction #[ghost(...)] for member '" ^^ member_str (f_member f) ^^
-                         "' should provide default value for type " ^^ tp_str tp) from_type_paths
+                         "' should provide default value for type " ^^ tp_str tp) (order_tp from_type_paths)
       end) (m_ghost (f_attrs f)) ++
     match m_repeat (f_attrs f) with
     | Some r => if mr_permeate r then ["Permeating repeat instruction is only applicable to enum variant fields."] else []
@@ -237,7 +239,7 @@ Definition validate_fields (s : struct_) (by_kind : list (trait_attr * kind)) (t
     | Some tp =>
         (if negb (tp_in tp type_paths) then [unknown_type_msg tp] else []) ++
         (if tp_in tp into_type_paths then check_child_errors c d tp else [])
-    | None => flat_map (fun tp => check_child_errors c d tp) into_type_paths
+    | None => flat_map (fun tp => check_child_errors c d tp) (order_tp into_type_paths)
     end) (flat_map (fun f => m_child (f_attrs f)) (s_fields s)) ++
   (if negb (s_named s) then
      flat_map (fun ak =>
@@ -292,7 +294,7 @@ Definition flavours_validate_order : list (kind * bool) :=
    (FromOwned, true); (FromRef, true); (OwnedInto, true); (RefInto, true); (OwnedIntoExisting, true); (RefIntoExisting, true)].
 
 (* all messages in code order *)
-Definition validate_msgs (input : data_type) : res (list string) :=
+Definition validate_msgs (order_tp : list type_path -> list type_path) (input : data_type) : res (list string) :=
   let d := dt_get_attrs input in
   let is_enum := match input with DEnum _ => true | _ => false end in
   let named_root := match input with DStruct s => s_named s | _ => false end in
@@ -310,7 +312,7 @@ Definition validate_msgs (input : data_type) : res (list string) :=
          | DEnum e => mapM (fun v => validate_member true false false (v_attrs v) by_kind type_paths) (e_variants e)
          end) ;;
   let m7 := match input with
-            | DStruct s => validate_fields s by_kind type_paths
+            | DStruct s => validate_fields order_tp s by_kind type_paths
             | DEnum e => flat_map (fun v => validate_variant_fields v d) (e_variants e)
             end in
   Ok (m0 ++ m1 ++ m2 ++ m3 ++ m4 ++ m5 ++ List.concat m6 ++ m7).
